@@ -1,3 +1,4 @@
 import ParsleyVerif.Props.C16J
 #print axioms PV.c16j_source_grammar
 #print axioms PV.c16j_decides_source
+#print axioms PV.c16j_sentence_trim
